@@ -1,11 +1,11 @@
 package main
 
 import (
-	"os"
 	"fmt"
 	"go/constant"
 	"go/token"
 	"go/types"
+	"os"
 	"sort"
 	"strings"
 
@@ -136,48 +136,48 @@ func checkC17(c *Ctx) {
 			}
 			done := map[seenKey]bool{}
 			for _, tup := range resultTuples(r) {
-			res0, res1, atBlock := tup[0].Val, tup[1].Val, tup[0].At.Block()
-			_, p0 := stripConv(res0).(*ssa.Phi)
-			_, p1 := stripConv(res1).(*ssa.Phi)
-			if !p0 && !p1 {
-				continue
-			}
-			walkThreaded(pstate{b: fn.Blocks[0]}, func(st pstate) bool {
-				if st.b != atBlock {
-					return true
+				res0, res1, atBlock := tup[0].Val, tup[1].Val, tup[0].At.Block()
+				_, p0 := stripConv(res0).(*ssa.Phi)
+				_, p1 := stripConv(res1).(*ssa.Phi)
+				if !p0 && !p1 {
+					continue
 				}
-				v0, v1 := st.resolve(res0), st.resolve(res1)
-				if !isNilConst(v1) {
-					return true
-				}
-				f, base := loadedField(v0)
-				if f != fSummary && f != fHistogram {
-					return true
-				}
-				want := accessPath(base) + "." + f.Name()
-				tested := false
-				for _, fa := range st.facts {
-					if fa.v == nil || !fa.truth {
-						continue
+				walkThreaded(pstate{b: fn.Blocks[0]}, func(st pstate) bool {
+					if st.b != atBlock {
+						return true
 					}
-					if xf, xb := loadedField(stripConv(fa.v)); xf != nil && accessPath(xb)+"."+xf.Name() == want {
-						tested = true
+					v0, v1 := st.resolve(res0), st.resolve(res1)
+					if !isNilConst(v1) {
+						return true
 					}
-				}
-				k := seenKey{f, want}
-				if done[k] && tested {
+					f, base := loadedField(v0)
+					if f != fSummary && f != fHistogram {
+						return true
+					}
+					want := accessPath(base) + "." + f.Name()
+					tested := false
+					for _, fa := range st.facts {
+						if fa.v == nil || !fa.truth {
+							continue
+						}
+						if xf, xb := loadedField(stripConv(fa.v)); xf != nil && accessPath(xb)+"."+xf.Name() == want {
+							tested = true
+						}
+					}
+					k := seenKey{f, want}
+					if done[k] && tested {
+						return true
+					}
+					if !done[k] {
+						n1++
+					}
+					done[k] = true
+					key := c.fnKey(fn) + ":" + f.Name()
+					c.sawFunc(c.fnKey(fn))
+					c.check(tested, "O1 union-nil", key, r.Pos(), "the cached entry's "+f.Name()+" variant is tested non-nil before it is returned with a nil error",
+						"a cached timer entry's "+f.Name()+" vector is returned with a nil error without testing that this variant is set: when the name was registered as the other kind (summary vs histogram) the caller dereferences nil - a panic even with a non-panicking error callback", c.describe(r))
 					return true
-				}
-				if !done[k] {
-					n1++
-				}
-				done[k] = true
-				key := c.fnKey(fn) + ":" + f.Name()
-				c.sawFunc(c.fnKey(fn))
-				c.check(tested, "O1 union-nil", key, r.Pos(), "the cached entry's "+f.Name()+" variant is tested non-nil before it is returned with a nil error",
-					"a cached timer entry's "+f.Name()+" vector is returned with a nil error without testing that this variant is set: when the name was registered as the other kind (summary vs histogram) the caller dereferences nil - a panic even with a non-panicking error callback", c.describe(r))
-				return true
-			}, nil)
+				}, nil)
 			}
 		}
 	}
@@ -185,9 +185,9 @@ func checkC17(c *Ctx) {
 
 	// ---- O2 allocators --------------------------------------------------------------------------
 	type alloc struct {
-		method  string
-		handle  []string // handle methods whose field reads must be covered
-		vecFns  []string
+		method string
+		handle []string // handle methods whose field reads must be covered
+		vecFns []string
 	}
 	allocs := []alloc{
 		{"AllocateCounter", []string{"ReportCount"}, []string{"counterVec"}},
@@ -1237,29 +1237,23 @@ func dominatesAllLatches(b *ssa.BasicBlock, l *loopInfo) bool {
 
 // checkPromCollaborators (O7): the registerer every vector is registered with, the gatherer the HTTP
 // handler gathers from and the error callback are never nil in a reporter NewReporter returns, and a
-// default only fills a gap. On the option cells of NewReporter:
-//   - every store into opts.Registerer / opts.Gatherer / opts.OnRegisterError is guarded by the edge
-//     `that option == nil` (a caller's choice is never overridden), and stores a value that cannot be
-//     nil (a closure, a package-level default of the Prometheus client, the result of a type assertion
-//     on its ok edge - a failed assertion yields a typed nil that compares unequal to nil later);
-//   - the load that initialises the reporter's field is dominated by a test `option == nil` from whose
-//     nil edge every path to the load passes a store into the option.
+// default only fills a gap. Decided on the value that initialises the reporter's field, in either
+// form the defaulting can take:
+//   - option cells (`if opts.X == nil { opts.X = default }`, also through whole-struct copies of the
+//     options): the load is preceded by a test `cell.X == nil` from whose nil edge every path to the
+//     load stores into cell.X; every store into an option cell's X is on the nil edge of a test of that
+//     cell's X (a caller's choice is never overridden) and stores a value that cannot be nil;
+//   - local variables (phis): every phi edge carries the caller's value on a path where it was found
+//     non-nil, or a value that cannot be nil on a path where the variable was found nil.
+//
+// "Cannot be nil": a closure / function, a package-level default of the Prometheus client (assumed),
+// a call result, the result of a type assertion on its ok edge (a failed assertion yields a typed nil
+// that compares unequal to nil later and is dereferenced when gathering).
 func (c *Ctx) checkPromCollaborators(rule string) {
 	const pk = "prometheus"
 	fn := c.fn(pk, "", "NewReporter")
 	if fn == nil || len(fn.Params) != 1 {
 		c.missing(rule, "prometheus.NewReporter(opts)")
-		return
-	}
-	// the spilled parameter
-	var cell *ssa.Alloc
-	for _, r := range *fn.Params[0].Referrers() {
-		if st, ok := r.(*ssa.Store); ok && st.Val == ssa.Value(fn.Params[0]) {
-			cell, _ = st.Addr.(*ssa.Alloc)
-		}
-	}
-	if cell == nil {
-		c.undecided(rule, c.fnKey(fn), fn.Pos(), "the options parameter is not kept in a local cell")
 		return
 	}
 	c.sawFunc(c.fnKey(fn))
@@ -1271,119 +1265,350 @@ func (c *Ctx) checkPromCollaborators(rule string) {
 			continue
 		}
 		key := c.fnKey(fn) + ":" + pr[0]
-		isCellAddr := func(a ssa.Value) bool {
+		var problems []string
+		var at ssa.Instruction
+		fail := func(in ssa.Instruction, msg string) {
+			problems = append(problems, msg)
+			if in != nil {
+				at = in
+			}
+		}
+		// ---- helpers ---------------------------------------------------------------------------
+		optCell := func(a ssa.Value) *ssa.Alloc { // a is &cell.X of a local options cell
 			f, base := addrField(a)
-			return f == fOpt && base == ssa.Value(cell)
+			if f != fOpt {
+				return nil
+			}
+			al, _ := base.(*ssa.Alloc)
+			return al
 		}
-		isLoad := func(v ssa.Value) bool {
-			u, ok := v.(*ssa.UnOp)
-			return ok && u.Op == token.MUL && isCellAddr(u.X)
+		cellLoad := func(v ssa.Value) *ssa.Alloc {
+			if u, ok := v.(*ssa.UnOp); ok && u.Op == token.MUL {
+				return optCell(u.X)
+			}
+			return nil
 		}
-		nilTest := func(cond ssa.Value) (bool, bool) {
+		isOrig := func(v ssa.Value) bool { // the caller's own option, read from the parameter
+			v = stripConv2(v)
+			if f, ok := v.(*ssa.Field); ok {
+				return structFieldOf(f.X.Type(), f.Field) == fOpt
+			}
+			return cellLoad(v) != nil
+		}
+		// nil test of value class `is`: returns (match, index of the successor taken when it IS nil)
+		nilTestOf := func(cond ssa.Value, is func(ssa.Value) bool) (bool, int) {
 			o, x, y, ok := cmpOf(cond)
-			if !ok {
-				return false, false
+			if !ok || (o != token.EQL && o != token.NEQ) {
+				return false, 0
 			}
 			if isNilConst(x) {
 				x, y = y, x
 			}
-			if !isNilConst(y) || !isLoad(x) {
-				return false, false
+			if !isNilConst(y) || !is(x) {
+				return false, 0
 			}
-			return true, o == token.EQL
+			if o == token.EQL {
+				return true, 0
+			}
+			return true, 1
 		}
-		var problems []string
-		var at ssa.Instruction
-		nStores := 0
-		instrsOf(fn, func(in ssa.Instruction) {
-			st, ok := in.(*ssa.Store)
-			if !ok || !isCellAddr(st.Addr) {
-				return
-			}
-			nStores++
-			if guardedByEdge(st, nilTest) == nil {
-				problems = append(problems, "a value is stored into opts."+pr[0]+" on a path where the caller's own "+pr[0]+" was not found to be nil: the caller's choice is overridden (or a missing one is not replaced)")
-				at = st
-			}
-			// the stored value cannot be nil
-			v := stripConv(st.Val)
-			okVal := false
-			switch x := v.(type) {
-			case *ssa.MakeClosure, *ssa.Function:
-				okVal = true
-			case *ssa.UnOp:
-				if g, isG := x.X.(*ssa.Global); isG && x.Op == token.MUL && g.Pkg != fn.Pkg {
-					okVal = true // a package-level default of the Prometheus client (assumption: not nil)
-				}
-			case *ssa.Extract:
-				if ta, isTA := x.Tuple.(*ssa.TypeAssert); isTA && ta.CommaOk && x.Index == 0 {
-					if guardedByEdge(st, func(cond ssa.Value) (bool, bool) {
-						e, isE := cond.(*ssa.Extract)
-						return isE && e.Tuple == x.Tuple && e.Index == 1, true
-					}) != nil {
-						okVal = true
-					} else {
-						problems = append(problems, "the result of a type assertion is stored without being on its ok edge: a failed assertion stores a typed nil, which the later `== nil` test does not see, and gathering dereferences it")
-						at = st
-						okVal = true
-					}
-				}
-			case *ssa.Call:
-				okVal = true
-			}
-			if !okVal {
-				problems = append(problems, "the default stored into opts."+pr[0]+" is not known to be non-nil")
-				at = st
-			}
-		})
-		// the load that reaches the reporter
-		var load ssa.Instruction
-		instrsOf(fn, func(in ssa.Instruction) {
-			st, ok := in.(*ssa.Store)
-			if !ok {
-				return
-			}
-			if f, _ := addrField(st.Addr); f == fRep {
-				if l, isL := st.Val.(*ssa.UnOp); isL && isLoad(l) {
-					load = l
-				} else {
-					problems = append(problems, "reporter."+pr[1]+" is not initialised from opts."+pr[0])
-					at = st
-				}
-			}
-		})
-		if load == nil {
-			problems = append(problems, "no store of opts."+pr[0]+" into reporter."+pr[1]+" found")
-		} else {
-			covered := false
-			for _, b := range fn.Blocks {
+		// the CFG edge pred -> to lies behind outcome `wantNil` of a nil test on a value of class `is`
+		behind := func(pred, to *ssa.BasicBlock, is func(ssa.Value) bool, wantNil bool) bool {
+			for _, b := range pred.Parent().Blocks {
 				iff, isIf := condOf(b)
 				if !isIf {
 					continue
 				}
-				m, onTrue := nilTest(iff.Cond)
+				m, nilIdx := nilTestOf(iff.Cond, is)
+				if !m {
+					continue
+				}
+				idx := nilIdx
+				if !wantNil {
+					idx = 1 - nilIdx
+				}
+				if b == pred && b.Succs[idx] == to && b.Succs[1-idx] != to {
+					return true
+				}
+				if edgeDominates(b, idx, pred) {
+					return true
+				}
+			}
+			return false
+		}
+		blockBehind := func(blk *ssa.BasicBlock, is func(ssa.Value) bool, wantNil bool) bool {
+			for _, b := range blk.Parent().Blocks {
+				iff, isIf := condOf(b)
+				if !isIf {
+					continue
+				}
+				m, nilIdx := nilTestOf(iff.Cond, is)
+				if !m {
+					continue
+				}
+				idx := nilIdx
+				if !wantNil {
+					idx = 1 - nilIdx
+				}
+				if edgeDominates(b, idx, blk) {
+					return true
+				}
+			}
+			return false
+		}
+		// structurally non-nil at a use on the edge pred -> to (to == nil: at block pred)
+		var solid func(v ssa.Value, pred, to *ssa.BasicBlock) (bool, string)
+		solid = func(v ssa.Value, pred, to *ssa.BasicBlock) (bool, string) {
+			v = stripConv2(v)
+			switch x := v.(type) {
+			case *ssa.MakeClosure, *ssa.Function, *ssa.Call, *ssa.Alloc:
+				return true, ""
+			case *ssa.MakeInterface:
+				if !nilable(x.X.Type()) {
+					return true, ""
+				}
+				return solid(x.X, pred, to) // an interface wrapping a nil pointer is as bad as nil
+			case *ssa.UnOp:
+				if g, isG := x.X.(*ssa.Global); isG && x.Op == token.MUL && g.Pkg != fn.Pkg {
+					return true, "" // a package-level default of the Prometheus client (assumption: not nil)
+				}
+			case *ssa.Extract:
+				if ta, isTA := x.Tuple.(*ssa.TypeAssert); isTA && ta.CommaOk && x.Index == 0 {
+					okEdge := false
+					for _, b := range pred.Parent().Blocks {
+						iff, isIf := condOf(b)
+						if !isIf {
+							continue
+						}
+						e, isE := iff.Cond.(*ssa.Extract)
+						if !isE || e.Tuple != x.Tuple || e.Index != 1 {
+							continue
+						}
+						if edgeDominates(b, 0, pred) || (to != nil && b == pred && b.Succs[0] == to && b.Succs[1] != to) {
+							okEdge = true
+						}
+					}
+					if okEdge {
+						return true, ""
+					}
+					return false, "the result of a type assertion is used without being on its ok edge: a failed assertion yields a typed nil, which a later `== nil` test does not see, and gathering dereferences it"
+				}
+			}
+			return false, "a value that is not known to be non-nil becomes the reporter's " + pr[1]
+		}
+		// ---- option cells ----------------------------------------------------------------------
+		nCellStores := 0
+		calleeOf := func(v ssa.Value) *ssa.Function {
+			call, ok := v.(*ssa.Call)
+			if !ok {
+				return nil
+			}
+			g := call.Call.StaticCallee()
+			if g == nil {
+				if mc, isMC := call.Call.Value.(*ssa.MakeClosure); isMC {
+					g, _ = mc.Fn.(*ssa.Function)
+				}
+			}
+			if g == nil || g.Blocks == nil || (g.Pkg != fn.Pkg && g.Parent() == nil) {
+				return nil
+			}
+			return g
+		}
+		fns := []*ssa.Function{fn}
+		instrsOf(fn, func(in ssa.Instruction) {
+			if st, ok := in.(*ssa.Store); ok {
+				if _, isAl := st.Addr.(*ssa.Alloc); isAl {
+					if g := calleeOf(st.Val); g != nil {
+						fns = append(fns, g)
+					}
+				}
+			}
+		})
+		for _, f := range fns {
+			instrsOf(f, func(in ssa.Instruction) {
+				st, ok := in.(*ssa.Store)
+				if !ok {
+					return
+				}
+				cell := optCell(st.Addr)
+				if cell == nil {
+					return
+				}
+				nCellStores++
+				sameCell := func(v ssa.Value) bool { return cellLoad(v) == cell }
+				if !blockBehind(st.Block(), sameCell, true) {
+					fail(st, "a value is stored into the option "+pr[0]+" on a path where the caller's own "+pr[0]+" was not found to be nil: the caller's choice is overridden (or a missing one is not replaced)")
+				}
+				if ok, why := solid(st.Val, st.Block(), nil); !ok {
+					fail(st, why)
+				}
+			})
+		}
+		var cellCovered func(cell *ssa.Alloc, load ssa.Instruction, depth int) bool
+		cellCovered = func(cell *ssa.Alloc, load ssa.Instruction, depth int) bool {
+			if depth == 0 {
+				return false
+			}
+			sameCell := func(v ssa.Value) bool { return cellLoad(v) == cell }
+			var whole []*ssa.Store
+			for _, r := range *cell.Referrers() {
+				if st, ok := r.(*ssa.Store); ok && st.Addr == ssa.Value(cell) {
+					whole = append(whole, st)
+				}
+			}
+			for _, b := range load.Parent().Blocks {
+				iff, isIf := condOf(b)
+				if !isIf {
+					continue
+				}
+				m, nilIdx := nilTestOf(iff.Cond, sameCell)
 				if !m || !dominates(iff, load) {
 					continue
 				}
-				idx := 1
-				if onTrue {
-					idx = 0
+				clobbered := false
+				for _, w := range whole {
+					if !dominates(w, iff) && !dominates(load, w) {
+						clobbered = true
+					}
 				}
-				succ := b.Succs[idx]
-				if len(succ.Instrs) == 0 {
+				succ := b.Succs[nilIdx]
+				if clobbered || len(succ.Instrs) == 0 {
 					continue
 				}
-				// from the nil edge every path to the load passes a store into the option
 				if reachAvoiding(succ.Instrs[0], true, func(i ssa.Instruction) bool { return i == load }, func(i ssa.Instruction) bool {
 					st, ok := i.(*ssa.Store)
-					return ok && isCellAddr(st.Addr)
+					return ok && optCell(st.Addr) == cell
 				}) == nil {
-					covered = true
+					return true
 				}
 			}
-			if !covered {
-				problems = append(problems, "no test `opts."+pr[0]+" == nil` whose nil edge always stores a default precedes the construction of the reporter: a reporter built from Options without "+pr[0]+" dereferences nil when it registers, gathers or reports a registration error")
-				at = load
+			// the options were copied as a whole from another cell that was defaulted before the copy
+			var last *ssa.Store
+			for _, w := range whole {
+				if dominates(w, load) && (last == nil || dominates(last, w)) {
+					last = w
+				}
+			}
+			if last != nil {
+				if u, ok := last.Val.(*ssa.UnOp); ok && u.Op == token.MUL {
+					if src, isAl := u.X.(*ssa.Alloc); isAl && src != cell {
+						return cellCovered(src, u, depth-1)
+					}
+				}
+				// ... or are the result of a helper that returns its own, defaulted options
+				if g := calleeOf(last.Val); g != nil {
+					rets := returnsOf(g)
+					okAll := len(rets) > 0
+					for _, r := range rets {
+						okRet := false
+						if len(r.Results) == 1 {
+							if u, ok := r.Results[0].(*ssa.UnOp); ok && u.Op == token.MUL {
+								if src, isAl := u.X.(*ssa.Alloc); isAl {
+									okRet = cellCovered(src, u, depth-1)
+								}
+							}
+						}
+						if !okRet {
+							okAll = false
+						}
+					}
+					return okAll
+				}
+			}
+			return false
+		}
+		// ---- local variables (phis) ------------------------------------------------------------
+		chain := map[ssa.Value]bool{}
+		var collect func(v ssa.Value)
+		collect = func(v ssa.Value) {
+			v = stripConv2(v)
+			if chain[v] {
+				return
+			}
+			if phi, ok := v.(*ssa.Phi); ok {
+				chain[v] = true
+				for _, e := range phi.Edges {
+					collect(e)
+				}
+			}
+		}
+		inChainOrOrig := func(v ssa.Value) bool {
+			v = stripConv2(v)
+			return chain[v] || isOrig(v)
+		}
+		var valueOK func(v ssa.Value, pred, to *ssa.BasicBlock, seen map[ssa.Value]bool) bool
+		valueOK = func(v ssa.Value, pred, to *ssa.BasicBlock, seen map[ssa.Value]bool) bool {
+			v = stripConv2(v)
+			if phi, ok := v.(*ssa.Phi); ok {
+				if seen[v] {
+					return true
+				}
+				seen[v] = true
+				// the whole variable was found non-nil on the way here
+				if to != nil && behind(pred, to, func(x ssa.Value) bool { return stripConv2(x) == v }, false) {
+					return true
+				}
+				okAll := true
+				for i, e := range phi.Edges {
+					if !valueOK(e, phi.Block().Preds[i], phi.Block(), seen) {
+						okAll = false
+					}
+				}
+				return okAll
+			}
+			if isOrig(v) {
+				if cell := cellLoad(v); cell != nil {
+					if cellCovered(cell, v.(ssa.Instruction), 4) {
+						return true
+					}
+				}
+				// the caller's value, on a path where it (or the variable holding it) was found non-nil
+				if to != nil && behind(pred, to, func(x ssa.Value) bool {
+					return stripConv2(x) == v || (isOrig(x) && isOrig(v) && cellLoad(x) == cellLoad(v)) || chain[stripConv2(x)]
+				}, false) {
+					return true
+				}
+				fail(asInstr(v), "the caller's "+pr[0]+" becomes the reporter's "+pr[1]+" on a path where it was not found to be non-nil and no default replaced it: a reporter built from Options without "+pr[0]+" dereferences nil when it registers, gathers or reports a registration error")
+				return false
+			}
+			// a default: cannot be nil, and only fills a gap
+			if ok, why := solid(v, pred, to); !ok {
+				fail(asInstr(v), why)
+				return false
+			}
+			if to != nil && !behind(pred, to, inChainOrOrig, true) {
+				fail(asInstr(v), "a default replaces the "+pr[0]+" on a path where the caller's own "+pr[0]+" was not found to be nil: the caller's choice is overridden")
+				return false
+			}
+			return true
+		}
+		// ---- the value that reaches the reporter -------------------------------------------------
+		var init *ssa.Store
+		instrsOf(fn, func(in ssa.Instruction) {
+			if st, ok := in.(*ssa.Store); ok {
+				if f, _ := addrField(st.Addr); f == fRep {
+					init = st
+				}
+			}
+		})
+		if init == nil {
+			fail(nil, "no initialisation of reporter."+pr[1]+" found in NewReporter")
+		} else {
+			v := stripConv2(init.Val)
+			collect(v)
+			switch {
+			case cellLoad(v) != nil:
+				if !cellCovered(cellLoad(v), v.(ssa.Instruction), 4) {
+					fail(init, "no test `opts."+pr[0]+" == nil` whose nil edge always stores a default precedes the construction of the reporter: a reporter built from Options without "+pr[0]+" dereferences nil when it registers, gathers or reports a registration error")
+				}
+			default:
+				if _, isPhi := v.(*ssa.Phi); isPhi {
+					valueOK(v, init.Block(), nil, map[ssa.Value]bool{})
+				} else if isOrig(v) {
+					fail(init, "reporter."+pr[1]+" is the caller's "+pr[0]+" as given: a reporter built from Options without "+pr[0]+" dereferences nil when it registers, gathers or reports a registration error")
+				} else if ok, why := solid(v, init.Block(), nil); !ok {
+					fail(init, why)
+				}
 			}
 		}
 		if len(problems) > 0 {
@@ -1394,7 +1619,7 @@ func (c *Ctx) checkPromCollaborators(rule string) {
 			}
 			c.bad(rule, key, pos, problems[0], tr)
 		} else {
-			c.ok(rule, key, load.Pos(), fmt.Sprintf("reporter.%s = opts.%s, defaulted on the nil edge of `opts.%s == nil`; all %d stores into the option fill a gap with a non-nil value", pr[1], pr[0], pr[0], nStores))
+			c.ok(rule, key, init.Pos(), fmt.Sprintf("reporter.%s is the caller's %s where that is non-nil and otherwise a default that cannot be nil; defaults only fill a gap (%d stores into option cells)", pr[1], pr[0], nCellStores))
 		}
 	}
 }
